@@ -42,14 +42,21 @@ def polar_cases(draw, nrmax=18):
     mode = draw(st.sampled_from(["native", "native", "makekl", "x4", "x6"]))
     npp = {"native": 5 * nr, "makekl": int(2 * math.pi * nr), "x4": 4 * nr, "x6": 6 * nr}[mode]
     nmax = max(2, min(40, (nr * npp) // 15))
-    return {"ri": ri, "nr": nr, "npp": npp, "mode": mode, "nfunc": draw(st.integers(2, nmax))}
+    return {"ri": ri, "nr": nr, "npp": npp, "mode": mode, "nfunc": draw(st.integers(2, nmax)),
+            "stf": draw(st.sampled_from(["kolstf", "kolmogorov"])), "outerscale": draw(st.sampled_from([None, None, 5.0, 1000.0]))}
 
 
 def polar_body(ctx, p):
     kl = KL()
     ri, nr, npp, nfunc = p["ri"], p["nr"], p["npp"], p["nfunc"]
     ctx.case(p, nontrivial=nfunc >= 6 and not (0.19 <= ri <= 0.21), classes=["npp_" + p["mode"], "nfunc_ge_6" if nfunc >= 6 else "nfunc_lt_6"])
-    bas = quiet(kl.gkl_basis, ri, nr, npp, nfunc)
+    kw = {}
+    if p.get("stf"):
+        kw["stf"] = p["stf"]
+    if p.get("outerscale") is not None:
+        kw["outerscale"] = p["outerscale"]            # has no meaning for Kolmogorov statistics: must change nothing
+        ctx.classes["outerscale_passed_with_kolmogorov"] += 1
+    bas = quiet(kl.gkl_basis, ri, nr, npp, nfunc, **kw)
     K = np.stack([quiet(kl.gkl_sfi, bas, i) for i in range(nfunc)])           # (nfunc, nr, npp)
     ctx.require(K.shape == (nfunc, nr, npp) and bool(np.all(np.isfinite(K))), "polar KL functions: shape %s / non-finite" % (K.shape,))
     ev = np.asarray(bas["evals"], dtype=float)
@@ -92,7 +99,7 @@ def polar_body(ctx, p):
 def cart_cases(draw):
     nr = draw(st.integers(6, 16))
     return {"ri": draw(st.one_of(st.floats(0.05, 0.9), st.sampled_from([0.2, 0.5]))), "nr": nr, "dim": draw(st.integers(8, 64)), "mask": draw(st.booleans()),
-            "nmax": draw(st.integers(2, max(2, min(30, (nr * int(2 * math.pi * nr)) // 15))))}
+            "nmax": draw(st.integers(2, max(2, min(30, (nr * int(2 * math.pi * nr)) // 15)))), "outerscale": draw(st.sampled_from([None, None, 4.0]))}
 
 
 def cart_body(ctx, p):
@@ -100,6 +107,10 @@ def cart_body(ctx, p):
     ri, nr, dim, nmax, mask = p["ri"], p["nr"], p["dim"], p["nmax"], p["mask"]
     ctx.case(p, nontrivial=nmax >= 6 and not (0.19 <= ri <= 0.21), classes=["masked" if mask else "unmasked", "dim_odd" if dim % 2 else "dim_even"])
     modes, var, pupil, base = quiet(kl.make_kl, nmax, dim, ri=ri, nr=nr, mask=mask)
+    if p.get("outerscale") is not None:
+        m2, v2, p2, _ = quiet(kl.make_kl, nmax, dim, ri=ri, nr=nr, mask=mask, stf="kolmogorov", outerscale=p["outerscale"])
+        ctx.equal(m2, modes, "make_kl(stf='kolmogorov', outerscale=...) differs from make_kl without an outer scale")
+        ctx.equal(np.asarray(v2), np.asarray(var), "make_kl variances change when an outer scale is passed with Kolmogorov statistics")
     ctx.require(modes.shape == (nmax, dim, dim) and pupil.shape == (dim, dim), "make_kl shapes %s %s" % (modes.shape, pupil.shape))
     ctx.require(bool(np.all(np.isfinite(modes))), "make_kl modes not finite")
     ctx.equal(np.asarray(var), np.asarray(base["evals"]), "make_kl variances == polar basis variances")
